@@ -71,6 +71,7 @@ static char events[8192]; static size_t events_len; static int nevents;
 static uint8_t edges[VS_MAXL][VS_MAXL];
 static const char *edge_label[VS_MAXL][VS_MAXL];
 static int n_created, n_joined;
+static int window = 1;        /* choice points are branchable only inside the exploration window */
 
 void (*vs_abort_cb)(const char *, const char *);
 int (*vs_input_ready_cb)(void);
@@ -118,6 +119,7 @@ int vs_nlocks(void) { return nlk; }
 uint8_t vs_edge(int a, int b) { return edges[a][b]; }
 const char *vs_edge_label(int a, int b) { return edge_label[a][b] ? edge_label[a][b] : ""; }
 void vs_set_label(const char *label) { if (self_id >= 0) th[self_id].label = label; }
+void vs_window(int on) { window = on; }
 void vs_edges_reset(void) { memset(edges, 0, sizeof edges); memset(edge_label, 0, sizeof edge_label); }
 void vs_set_thread_label(int tid, const char *label) { if (tid >= 0 && tid < nth) th[tid].label = label; }
 int vs_threads_created(void) { return n_created; }
@@ -292,7 +294,7 @@ static int pick(int me) {
 				}
 		}
 		int idx = 0;
-		if (n > 1) {
+		if (n > 1 && window) {
 			uint32_t sig = 2166136261u;
 			sig = mix(sig, (uint32_t) (me + 1)); sig = mix(sig, (uint32_t) (me >= 0 ? th[me].kind : 0));
 			sig = mix(sig, (uint32_t) (me >= 0 && th[me].state >= TS_WANT_MUTEX && th[me].state <= TS_WANT_WR ? th[me].want + 1 : 0));
@@ -345,7 +347,7 @@ void vs_begin(const vs_cfg_t *c) {
 	memset(th, 0, sizeof th); memset(lk, 0, sizeof lk); memset(edges, 0, sizeof edges);
 	memset(edge_label, 0, sizeof edge_label);
 	nth = 1; nlk = 0; now_us = 0; ncp = 0; cp_index = 0; next_dev = 0; cost_used = 0; steps = 0;
-	contended = 0; events_len = 0; nevents = 0; events[0] = 0; n_created = n_joined = 0;
+	window = 1; contended = 0; events_len = 0; nevents = 0; events[0] = 0; n_created = n_joined = 0;
 	cfg = *c;
 	if (!cfg.horizon_us) cfg.horizon_us = 600ull * 1000000ull;
 	if (!cfg.max_steps) cfg.max_steps = 2000000;
